@@ -23,7 +23,10 @@ def _chain(*preds):
     return f
 
 
-CLS = _chain(("row-at-window-edge", F.p_row_at_window_edge), *F.GENERIC)
+# row-at-window-edge: the input has a row at exactly newest-T+1ns next to an expiring row in one batch AND the
+# observation is exactly what the model of the recorded defect (inclusive cut in diff_loc) predicts; anything
+# else on such inputs is classified by the generic predicates and is therefore never a known finding
+CLS = _chain(("row-at-window-edge", F.p_explained_by_inclusive_cut), *F.GENERIC)
 
 WINS = [("n", 1), ("n", 2), ("n", 3), ("t", "1s"), ("t", "2s"), ("t", "3s"), ("t", "1ns"), ("t", "2ns")]
 XY = ["x", "y"]
@@ -61,6 +64,7 @@ for w in WINS:
     v.append(add(w, "apply", lambda x: x.apply(lambda df: df.x.max()), lambda view: view.x.max()))
     v.append(add(w, "sum[frame]", lambda x: x[XY].sum(), cols=XY))
     v.append(add(w, "mean[frame]", lambda x: x[XY].mean(), cols=XY))
+    v.append(add(w, "sum[x*y+1]", lambda x: (x.x * x.y + 1).sum(), cols=XY))      # arithmetic inside the window
     VCK[w] = [add(w, "value_counts[k]", lambda x: x.k.value_counts(), zero_ok=True, rank=1)]
     GCOL[w] = [add(w, "groupby(col).%s" % op, lambda x, op=op: getattr(x.groupby("k").x, op)()) for op in GOPS]
     GSER[w] = [add(w, "groupby(series).%s" % op, lambda x, op=op: getattr(x.groupby(x.k).x, op)()) for op in GOPS]
@@ -86,15 +90,21 @@ def plan(ctx):
     # ---- row windows ----
     for w in NW:
         if th:
-            su.append(F.Suite(VAL[w], "v", {1: 2, 2: 2, 3: 2, 4: 2, 5: 1}))
+            su.append(F.Suite(VAL[w], "v", {1: 2, 2: 2, 3: 2, 4: 2}))
+            if w[1] > 1:
+                su.append(F.Suite([k for k in VAL[w] if "[frame]" not in k], "v", {5: 1}))
             su.append(F.Suite(VCK[w], "k", {1: 2, 2: 2, 3: 2, 4: 2, 5: 1}))
-            su.append(F.Suite(GCOL[w] + GSER[w] + GSTREAM[w], "kv", {1: 2, 2: 2, 3: 1}))
-            su.append(F.Suite(GCOL[w] + GSER[w] + GSTREAM[w], "kv3", {3: 2, 4: 1}))
+            su.append(F.Suite(GCOL[w] + GSER[w] + GSTREAM[w], "kv", {1: 2, 2: 2, 3: 0}))
+            su.append(F.Suite(GCOL[w], "kv", {3: 1}))
+            su.append(F.Suite(GCOL[w] + GSER[w] + GSTREAM[w], "kv3", {3: 2}))
+            su.append(F.Suite(GCOL[w] + pick(GSER, w, ("sum", "size", "var")), "kv3", {4: 1}))
         else:
             su.append(F.Suite(VAL[w], "v", {1: 1, 2: 1, 3: 1}))
             su.append(F.Suite(VCK[w], "k", {1: 1, 2: 1, 3: 1, 4: 1}))
-            su.append(F.Suite(GCOL[w] + GSER[w] + GSTREAM[w], "kv", {1: 1, 2: 1}))
-            su.append(F.Suite(GCOL[w], "kv3", {3: 1}))
+            grp = GCOL[w] + GSER[w] + GSTREAM[w] if w[1] == 2 else GCOL[w] + pick(GSER, w, ("sum", "size", "var"))
+            su.append(F.Suite(grp, "kv", {1: 0, 2: 0}))
+            su.append(F.Suite(grp, "kv3", {1: 1, 2: 1}))
+            su.append(F.Suite(GCOL[w], "kv3", {3: 1 if w[1] == 2 else 0}))
             su.append(F.Suite(pick(GSER, w, ("sum", "size", "var")), "kv3", {3: 0}))
     # one batch evicting several whole earlier batches of different lengths needs long tables: single-value family
     for w in NW[1:]:
@@ -107,15 +117,16 @@ def plan(ctx):
             core_g = pick(GCOL, w, ("sum", "size")) + pick(GSER, w, ("sum", "var"))
             if th:
                 su.append(F.Suite(VAL[w], "v", {1: 2, 2: 2, 3: 1}, grid=grid))
-                su.append(F.Suite(core_v, "v", {3: 2, 4: 0}, grid=grid))
+                su.append(F.Suite(core_v, "v", {3: 2}, grid=grid))
+                su.append(F.Suite(pick(VAL, w, ("sum", "full")), "v", {4: 0}, grid=grid))
                 su.append(F.Suite(VCK[w], "k", {1: 2, 2: 2, 3: 1}, grid=grid))
-                su.append(F.Suite(GCOL[w] + GSER[w] + GSTREAM[w], "kv", {1: 2, 2: 2}, grid=grid))
+                su.append(F.Suite(GCOL[w] + GSER[w] + GSTREAM[w], "kv", {1: 2, 2: 1}, grid=grid))
                 su.append(F.Suite(core_g, "kv3", {3: 1}, grid=grid))
             else:
                 su.append(F.Suite(VAL[w], "v", {1: 1, 2: 1}, grid=grid))
-                su.append(F.Suite(core_v, "v", {3: 0}, grid=grid))
+                su.append(F.Suite(pick(VAL, w, ("sum", "full")), "v", {3: 0}, grid=grid))
                 su.append(F.Suite(VCK[w], "k", {1: 1, 2: 1}, grid=grid))
-                su.append(F.Suite(GCOL[w] + GSER[w][:1] + GSTREAM[w], "kv3", {1: 1, 2: 1}, grid=grid))
+                su.append(F.Suite(pick(GCOL, w, ("sum", "size", "mean", "var")) + GSER[w][:1] + GSTREAM[w], "kv3", {1: 1, 2: 1}, grid=grid))
     return su
 
 
